@@ -185,6 +185,11 @@ pub fn run(ctx: &mut Ctx) {
             ctx.eval(&Agree { s, origin: "long-noise" });
         }
     }
+    // one transmission beyond 1 MiB: growable vs. fixed buffer of sufficient capacity
+    if ctx.mine(13) {
+        let p: Vec<u8> = (0..(1usize << 20) + 5000).map(|i| (i % 253) as u8).collect();
+        ctx.eval(&Agree { s: ref_encode(&p), origin: "megabyte-frame" });
+    }
     for (i, (_, b)) in crate::corpus::files().iter().enumerate() {
         if ctx.mine(i as u64) {
             ctx.eval(&Agree { s: b.clone(), origin: "recording" });
@@ -192,7 +197,7 @@ pub fn run(ctx: &mut Ctx) {
     }
 }
 
-pub const FLOORS: &[&str] = &["floor:leftover-at-end", "origin:long-noise"];
+pub const FLOORS: &[&str] = &["floor:leftover-at-end", "origin:long-noise", "origin:megabyte-frame"];
 
 pub const RULE: &str = "cases = byte streams (concatenations of up to 8 frames / adversarial frames / noise / garbage, valid frames, streams cut at any offset so that input ends in every decoder phase, \
 random protocol bytes, long noise beyond 2^16, the real recordings). For each: push decoder + finalize (Vec and ArrayBuf<N>=|s|), push decoder + reset, decode (by value / by reference), decode_streaming (both buffers), \
